@@ -139,6 +139,8 @@ PROPS = {
         "lean_modules": ["Vipnode.Props.C09"],
         "streams": pool_streams(150, 1500, gen="pool-peers", prefix="registry") + [
             {"name": "poolbin-ws", "component": "poolbin", "cases": {"quick": 16, "thorough": 200}},
+            # real connections in-process: a stray reply, then the connection ends - the registry forgets the host
+            {"name": "registry-conn", "component": "fuzz", "gen": "fuzz-registry", "opts": {"driver": "memory"}, "cases": {"quick": 4, "thorough": 40}, "no_shrink": True},
         ],
         "monitor": monitors.c09_registry,
     },
@@ -174,7 +176,7 @@ PROPS = {
         "monitor": monitors.c13_persist,
     },
     "C14": {
-        "level_text": "An invariant of the pending-reply table (distinct slot ids; every live call has a slot marked as waited-on; buffered messages only for answered ids; live ids distinct) is proved for every honest execution - every schedule of any number of concurrent callers and handlers, replies in any order, cancellations at any point, any table limit (inv_step, inv_run). From it: live_slot_protected, serve_never_blocks, ids_unique, reply_routing (own reply, other calls untouched, also when the reply arrives before the caller waits), cancel_returns_ctx_error, end_releases_every_call / end_every_call_returns / end_keeps_delivered_reply (Props/C14E: when the connection's read loop ends every call in progress returns - its delivered reply if there is one, the connection's error otherwise; stream op endserve), late_reply_never_misdelivered, handled_exactly_once, callback_completes (a handler calling back waits only on its own slot). The real jsonrpc2.Remote is driven through a harness codec that is the scheduler (the harness plays peer and network) and through concurrent storms over a pipe pair with the production table limit. Storms also with handlers that call back before answering, ping-pong recursions up to 80 deep, over Local and HTTP transports; reply and cancellation at the same instant.",
+        "level_text": "An invariant of the pending-reply table (distinct slot ids; every live call has a slot marked as waited-on; buffered messages only for answered ids; live ids distinct) is proved for every honest execution - every schedule of any number of concurrent callers and handlers, replies in any order, cancellations at any point, any table limit (inv_step, inv_run). From it: live_slot_protected, serve_never_blocks, ids_unique, reply_routing (own reply, other calls untouched, also when the reply arrives before the caller waits), cancel_returns_ctx_error, end_releases_every_call / end_every_call_returns / end_keeps_delivered_reply, stray_reply_never_blocks (Props/C14E: when the connection's read loop ends every call in progress returns - its delivered reply if there is one, the connection's error otherwise; stream op endserve), late_reply_never_misdelivered, handled_exactly_once, callback_completes (a handler calling back waits only on its own slot). The real jsonrpc2.Remote is driven through a harness codec that is the scheduler (the harness plays peer and network) and through concurrent storms over a pipe pair with the production table limit. Storms also with handlers that call back before answering, ping-pong recursions up to 80 deep, over Local and HTTP transports; reply and cancellation at the same instant.",
         "level_note": "Theorems are about Model/Rpc.lean, whose steps are the atomic regions of remote.go (r.mu critical sections, channel operations, the atomic id counter); the peer is honest (answers only issued ids, each at most once). Runtime behaviour the model cannot exhibit: goroutine scheduling and Go channel semantics are abstracted as atomic steps (supported by -race storms in the thorough tier).",
         "lean_modules": ["Vipnode.Props.C14", "Vipnode.Props.C14E"],
         "streams": [
@@ -192,7 +194,10 @@ PROPS = {
             {"name": "fuzz-memory", "component": "fuzz", "opts": {"driver": "memory"}, "cases": {"quick": 20, "thorough": 90}, "no_shrink": True},
             {"name": "fuzz-badger", "component": "fuzz", "opts": {"driver": "badger"}, "cases": {"quick": 10, "thorough": 40}, "no_shrink": True},
             {"name": "rpc-replies", "component": "rpc", "cases": {"quick": 60, "thorough": 600}},
+            # the built binary: connections ending in every way, a full node registering over plain HTTP, requests after it
+            {"name": "poolbin-ws", "component": "poolbin", "cases": {"quick": 12, "thorough": 120}},
         ] + pool_streams(40, 400, gen="pool-nonce", prefix="badsig"),
+        "monitor": monitors.c15_binary,
     },
     "C16": {
         "level_text": "exposed_exactly (a server exposes exactly prefix+lowerFirst(method) for the receiver's exported methods, restricted to the allow-list), unknown_not_found, bad_params_not_run, runs_only_if_well_typed, too_many/too_few/wrong_type_invalid are Lean theorems about the registry and positional-argument model; production_surface re-proves by `decide`, on every run, that the names the *built pool binary* answers (probed over HTTP with every candidate name derived by reflection from the objects behind its services) are exactly the documented API. The model is compared with jsonrpc2.Server on instrumented receivers (invocation counters) and with the running binary over HTTP and WebSocket.",
@@ -221,13 +226,19 @@ PROPS = {
         "level_note": "Theorems are about Model/NodeURI.lean; net/url parsing is not re-implemented: the model receives what url.Parse yields for the override (hostname, port, user), observed by the harness. Trusted: net/url, net.SplitHostPort (modelled as splitHostPortL for the round-trip theorem and compared on every case).",
         "lean_modules": ["Vipnode.Props.C19"],
         "monitor": monitors.c19_advertised,
-        "streams": [{"name": "uri", "component": "uri", "cases": {"quick": 200, "thorough": 3000}}] + pool_streams(80, 800, gen="pool-peers", prefix="connect") + pool_streams(60, 600),
+        "streams": [{"name": "uri", "component": "uri", "cases": {"quick": 200, "thorough": 3000}}] + pool_streams(80, 800, gen="pool-peers", prefix="connect") + pool_streams(60, 600) + [
+            # the address a host registered last is the one stored, also when the registration races its own keep-alive
+            {"name": "noderace-badger", "component": "conc", "gen": "conc-noderace", "opts": {"driver": "badger"}, "cases": {"quick": 2, "thorough": 20}, "no_shrink": True, "corpus_filter": "^$"},
+            {"name": "noderace-memory", "component": "conc", "gen": "conc-noderace", "opts": {"driver": "memory"}, "cases": {"quick": 1, "thorough": 10}, "no_shrink": True, "corpus_filter": "^$"},
+        ],
     },
     "C18": {
-        "level_text": "dropped_iff / dropped_nonstrict (who is un-trusted and disconnected: exactly the pool's invalid peers, plus - strict - the local peers the pool does not list as active under the same host), drop_calls, no_other_peer_dropped, strict_keeps_iff (host compared, ports play no role), shortfall (exactly the shortfall is requested, of the node's kind for a light client, every returned host is connected), failed_keepalive_no_calls are Lean theorems about the pure round function for every local peer set, pool reply and outcome; the real agent.Agent is driven with a recording EthNode and a scripted pool, and must make the same calls in the same order.",
+        "level_text": "dropped_iff / dropped_nonstrict (who is un-trusted and disconnected: exactly the pool's invalid peers, plus - strict - the local peers the pool does not list as active under the same host), drop_calls, no_other_peer_dropped, strict_keeps_iff (host compared, ports play no role), shortfall (exactly the shortfall is requested, of the node's kind for a light client, every returned host is connected), failed_keepalive_no_calls, encode_keeps_uri (what reaches a geth node's RPC endpoint is the URI the pool returned) are Lean theorems about the pure round function for every local peer set, pool reply and outcome; the real agent.Agent is driven with a recording EthNode and a scripted pool, and must make the same calls in the same order.",
         "level_note": "Theorems are about Model/Agent.lean `round`; enode URIs enter the model as what ethnode.ParseNodeURI makes of them (id, remote host, unparseable), observed by the harness. Trusted: net/url, the recording EthNode/scripted pool of the harness.",
         "lean_modules": ["Vipnode.Props.C18"],
-        "streams": [{"name": "agent-rounds", "component": "agent", "cases": {"quick": 300, "thorough": 5000}}],
+        "streams": [{"name": "agent-rounds", "component": "agent", "cases": {"quick": 300, "thorough": 5000}},
+                    # what the agent asks of its node is what a geth node's RPC endpoint receives (ethnode's geth wrapper)
+                    {"name": "eth-rpc", "component": "ethrpc", "cases": {"quick": 20, "thorough": 300}}],
         "monitor": monitors.c18_agent,
     },
     "C20": {
